@@ -103,8 +103,9 @@ func C20(c *Ctx) {
 					n++
 					ces := lastExecPlusOneEdges(caller)
 					crs := core.Reach([]core.Point{core.EntryOf(caller)}, nil, core.CutOf(ces))
-					g := ces.Len() > 0 && !crs.Has(call)
-					u := followsInIteration(caller, call, isLastExecUpdate)
+					// each half may be established inside the helper or at the call site
+					g := guarded || ces.Len() > 0 && !crs.Has(call)
+					u := updated || followsInIteration(caller, call, isLastExecUpdate)
 					if !g || !u {
 						liftedOK = false
 						r.Bad("R20.1", key+" via "+shortFn(caller), c.P.Pos(call.Pos()), fmt.Sprintf("a block is delivered to the executor without the height == lastExec+1 test (guarded=%v) or without advancing lastExec before the next delivery (updated=%v)", g, u))
